@@ -32,7 +32,7 @@ MANIFEST = {
             "input. Correctness of the dependence analysis (C08) and any "
             "actual thread schedule are NOT decided.",
     "technique": "path enumeration over validate + super-chain scan + "
-                 "def-use of the inference results",
+                 "def-use of the inference results + refusal-weakening check against the reviewed guard snapshot",
 }
 
 
